@@ -253,6 +253,7 @@ def run_scenario(program, chooser, max_steps=4000, kill_budget=0, killable=None,
     r.futures = {tid: classify_future(f) for tid, (kind, f) in env.futs.items()}
     r.kinds = {tid: kind for tid, (kind, f) in env.futs.items()}
     r.max_registered = tuple(env.max_registered)
+    r.inv_violations = dict(env.inv_violations)
     return r
 
 
@@ -267,9 +268,32 @@ class Env:
         self.executors = []
         self.all_executors = []     # references captured at creation (shutdown() nulls the attributes)
         self.max_registered = [0, 0]
+        self.inv_violations = {}     # statements proved on coq/Model/Pool.v, watched on the real objects after every step
         kern.step_hooks.append(self._sample)
 
     def _sample(self, kern):
+        # (Proofs/PoolThm.loud_before_any_broken_future) a future failed with a BrokenProcessPool error => the flag is set
+        if "broken-future-before-flag" not in self.inv_violations:
+            for tid, (kind, f) in self.futs.items():
+                ex_ = getattr(f, "_exception", None)
+                if f._state == "FINISHED" and ex_ is not None and type(ex_).__name__ in ("BrokenProcessPool", "TerminatedWorkerError"):
+                    if not any(rec["flags"].broken is not None for rec in self.all_executors):
+                        self.inv_violations["broken-future-before-flag"] = (kern.steps, tid)
+                    break
+        # (Proofs/PoolThm.manager_gone_means_all_settled) once the manager thread has ended, nothing is left unresolved in its table
+        if "manager-gone-with-pending" not in self.inv_violations:
+            for rec in self.all_executors:
+                mt = rec.get("mgr_actor")
+                if mt is None:
+                    ex = rec["ex"]() if callable(rec["ex"]) else rec["ex"]
+                    t = getattr(ex, "_executor_manager_thread", None) if ex is not None else None
+                    mt = getattr(t, "_sim_actor", None)
+                    if mt is not None:
+                        rec["mgr_actor"] = mt
+                if mt is not None and not mt.alive() and not getattr(mt, "crashed", False):
+                    left = [k for k, w in list(rec["pending"].items()) if w.future._state in ("PENDING", "RUNNING")]
+                    if left:
+                        self.inv_violations["manager-gone-with-pending"] = (kern.steps, left)
         for rec in self.all_executors:
             ex = rec["ex"]() if callable(rec["ex"]) else rec["ex"]
             procs = rec["procs"]
